@@ -136,7 +136,8 @@ class C26(Check):
     technique = "TLA+ outcome automaton (Startup.tla); real binary under a pty on enumerated corruptions; TLC trace validation"
     trusted = ["Python pty driver and outcome classifier", "Go harness: ELF64 writer", "TLC, CommunityModules Json"]
     rule = ("inputs: argument vectors (none, two, missing file, directory, empty file, text file); structured ELF files "
-            "(valid programs entered at every one of their instructions; types none/rel/core; no executable section; overlapping sections / segments; no loadable "
+            "(valid programs entered at every one of their instructions; programs over the whole RV64IMA alphabet with "
+            "edge-grid fields and every CSR number of the grid; types none/rel/core; no executable section; overlapping sections / segments; no loadable "
             "segment; memory size below file size; memory size 2^40 and 2^62; undecodable word; truncated word; entry "
             "point mid-instruction / outside; jump out of the code / into an instruction; wrong class, endianness); "
             "mutations of a good file: truncation at every header / table / data boundary +-1, every ELF-header, "
